@@ -62,6 +62,33 @@ inline ParamSet minimiseConfig(const ParamSet& full, const std::function<bool(co
    return cur;
 }
 
+// Which default-on features does the failure depend on?  (stable root-cause hint appended to the key: a failure that
+// disappears when the simplifier / scaler is switched off is attributed to it.)
+inline std::string refineNeeds(const ParamSet& minimal, const std::function<bool(const ParamSet&)>& stillFails)
+{
+   std::string needs;
+   struct F
+   {
+      int id;
+      const char* name;
+   };
+   const F feats[] = {{SoPlex::SIMPLIFIER, "simplifier"}, {SoPlex::SCALER, "scaler"}};
+   for(const F& f : feats)
+   {
+      if(minimal.i.count(f.id)) continue;
+      ParamSet t = minimal;
+      t.i[f.id] = 0;
+      if(!stillFails(t)) needs += std::string(needs.empty() ? "" : ",") + f.name;
+   }
+   return needs.empty() ? std::string() : "+needs{" + needs + "}";
+}
+inline std::string cellKey(const ParamSet& full, const std::function<bool(const ParamSet&)>& stillFails, ParamSet* minimalOut = nullptr)
+{
+   ParamSet mc = minimiseConfig(full, stillFails);
+   if(minimalOut) *minimalOut = mc;
+   return mc.key() + refineNeeds(mc, stillFails);
+}
+
 inline std::string replayJson(const LPModel& M, const ParamSet& cfg, const ParamSet& minimal, int loadMode)
 {
    Json j;
